@@ -36,7 +36,8 @@ func (r *InnerTokenRequest) Unmarshal(data []byte) bool {
 	}
 
 	var paddedOriginName cryptobyte.String
-	if !s.ReadUint16LengthPrefixed(&paddedOriginName) {
+	if !s.ReadUint16LengthPrefixed(&paddedOriginName) || !s.Empty() {
+		// Nothing may follow the padded origin name.
 		return false
 	}
 	r.paddedOrigin = make([]byte, len(paddedOriginName))
